@@ -183,6 +183,37 @@ def ctor_only():
     return obs
 
 
+# ---- a missing path never raises with the default Undefined: the item getter raises only the
+# ---- lookup errors that RenderContext.get / get_async turn into Undefined
+
+for _sfx in ("", "_async"):
+    def _mk(sfx):
+        @contract(CTX + ".get_item" + sfx, prop="C16", name=f"get_item{sfx}[raises-only-lookup-errors]")
+        def gi(c):
+            env = mk_env(c)
+            ctx = mk_ctx(c, env)
+            obj, key = c.any("obj"), c.any("key")
+            c.call(obj, key, self_val=ctx)
+            c.raises("KeyError", "IndexError", "TypeError")
+            c.ensures("completes", lambda r: z3.BoolVal(True))
+            c.replay("code", code=REPLAY_FIRST)
+    _mk(_sfx)
+
+REPLAY_FIRST = r'''
+def run(m):
+    import asyncio
+    from liquid import Environment
+    t = Environment().from_string("[{{ d.first }}|{{ d.last }}|{{ d.size }}|{{ e.first }}]")
+    out = []
+    for f in (lambda: t.render(d={}, e=[]), lambda: asyncio.run(t.render_async(d={}, e=[]))):
+        try:
+            out.append(f())
+        except BaseException as ex:
+            out.append(type(ex).__name__)
+    return {"violated": out != ["[||0|]", "[||0|]"], "observed": out}
+'''
+
+
 not_covered("C16", "every other place a value is consumed (covered only as far as those functions are kernels of C02/C25)", "FalsyStrictUndefined.__eq__ differs from Undefined.__eq__ by design; shown unobservable at the consumers _eq/_contains/default (they go through __liquid__() first)")
 
 bounded("C16", "bounded/C16.py")
